@@ -44,7 +44,7 @@ Definition ex_sched2 : list nat := [0; 2; 3; 1; 5; 4; 6; 7; 8; 9]%nat.
 Definition final_of (S : rstate) : list (option val) * list event :=
   match S with
   | RRun s e | RStop s e _ => (map s ["x"; "y"; "z"; "w"; "<state>u"], e)
-  | RCrash _ => ([], [])
+  | RCrash _ _ => ([], [])
   end.
 Example ex_schedules_agree :
   final_of (run_ids F0 true ex_stmts ex_sched1 (RRun empty [])) =
@@ -65,7 +65,7 @@ Definition wit_prog : list bcall :=
   [ BStmt (KAssign "j" None (EInt 1) []); BStmt (KAssign "a" (Some (EVar "j")) (EInt 7) []) ].
 Definition wit_store : store := upd (upd empty "a" (VArr [0; 0])) "j" (VInt 0).
 Definition wit_final (S : rstate) : list (option val) :=
-  match S with RRun s _ | RStop s _ _ => map s ["a"; "j"] | RCrash _ => [] end.
+  match S with RRun s _ | RStop s _ _ => map s ["a"; "j"] | RCrash _ _ => [] end.
 Lemma lhs_shape_refuted :
   match build false true isst "<exec>" wit_prog with
   | BOk b =>
